@@ -22,6 +22,8 @@ from spec import prims as P
 from spec.rt import bits, bit
 from . import machine as MC
 from . import families as FAM
+from spec import encodings as ENC
+from spec import stepspec as SS
 
 ASSUMPTIONS = [
     'L5 abstraction: memory accessors are uninterpreted functions (MemRead/MemWrite/MemFault) of an abstract memory token; '
@@ -220,6 +222,38 @@ def make_unit(iset, cube_name, cube_pred, memarch='PMSA', nregions=1, props=('C1
         ob.props = ['C19']
         ob = eng.oblige('frame', '%s: object graph shape unchanged' % tag, mach.shape_ok())
         ob.props = ['C18']
+        # ---- functional specification of the executed encoding (decode + operation), where a row exists
+        rows = ENC.rows_for(kname)
+        if rows and not events:
+            dprop = 'C06' if iset == 'arm' else 'C07'
+            want = 'arm' if iset == 'arm' else ('t16' if iset == 'thumb16' else 't32')
+            rows = [r for r in rows if r.iset == want]
+            ob = eng.oblige('decode.class', '%s: the word belongs to the architectural encoding of the selected class' % tag,
+                            lor(*[r.match(instr) for r in rows]) if rows else False)
+            ob.props = [dprop]
+            def fix(name, w, v):
+                # small decoded fields that the path condition already determines are handed to the spec as constants
+                if w > 2 or not sym.is_sym(v):
+                    return v
+                for k in range(1 << w):
+                    if eng.prove(sym.zb(v == k)):
+                        return k
+                return v
+            for r in rows:
+                st0 = dict(init)
+                exp, s_unpred, s_undef = SS.spec_step(r, st0, instr, 'arm' if iset == 'arm' else 'thumb', oplen, fix=fix)
+                skip = lor(lnot(r.match(instr)), s_unpred, s_undef)
+                named = []
+                for k, v in final.items():
+                    if k in SCRATCH:
+                        continue
+                    named.append((k, lor(skip, values_eq(v, exp[k]))))
+                named.append(('mem', lor(skip, sym.SymBool(mem.term == mem.init))))
+                ob = eng.oblige_all('post', '%s: final state == architectural decode+operation (all leaves; frame)' % tag, named)
+                ob.props = [r.family or fam, dprop]
+                ob = eng.oblige('post.unpred', '%s: not executed normally where the architecture says UNDEFINED' % tag,
+                                lor(lnot(r.match(instr)), lnot(s_undef)))
+                ob.props = [dprop]
         return None
 
     def replay(inputs, ob):
